@@ -162,9 +162,14 @@ def h_density(c):
   bs = [c.real('b%d' % i, 0) for i in range(nb)]
   for a, b in zip(bs, bs[1:]):
     c.assume(a <= b)
-  enc = pc.NoteDensityPerformanceControlSignal.NoteDensityOneHotEncoding(
-      list(bs))
+  cls = pc.NoteDensityPerformanceControlSignal.NoteDensityOneHotEncoding
+  # a second object with other boundaries lives in the same process
+  other = cls([1.0, 5.0])
+  enc = cls(list(bs))
   c.check(enc.num_classes == nb + 1, 'num_classes')
+  c.check([other.decode_event(k) for k in range(3)] == [0.0, 1.0, 5.0] and
+          other.num_classes == 3,
+          'an encoding is not disturbed by another one with other boundaries')
   x = c.real('x', 0)
   i = enc.encode_event(x)
   ii = c.concretize(i)
